@@ -1,4 +1,4 @@
-use std::{cmp, mem};
+use std::mem;
 
 use rosu_map::section::general::GameMode;
 
@@ -186,7 +186,12 @@ impl Iterator for OsuGradualDifficulty {
     fn nth(&mut self, n: usize) -> Option<Self::Item> {
         let skip_iter = self.diff_objects.iter().skip(self.idx.saturating_sub(1));
 
-        let mut take = cmp::min(n, self.len().saturating_sub(1));
+        let len = self.len();
+
+        // As per `Iterator::nth`, if fewer than `n + 1` values remain, all
+        // of them are consumed and `None` is returned.
+        let exhaust = n >= len;
+        let mut take = if exhaust { len } else { n };
 
         // The first note has no difficulty object
         if self.idx == 0 && take > 0 {
@@ -200,12 +205,20 @@ impl Iterator for OsuGradualDifficulty {
             self.idx += 1;
         }
 
+        if exhaust {
+            return None;
+        }
+
         self.next()
     }
 }
 
 impl ExactSizeIterator for OsuGradualDifficulty {
     fn len(&self) -> usize {
+        if self.osu_objects.is_empty() {
+            return 0;
+        }
+
         self.diff_objects.len() + 1 - self.idx
     }
 }
